@@ -596,17 +596,30 @@ impl<P: RuntimeProvider + Send + Sync> ZoneHandler for InMemoryZoneHandler<P> {
 
         let closest_proof = inner.closest_nsec(name);
 
-        // we need the wildcard proof, but make sure that it's still part of the zone.
-        let wildcard = name.base_name();
+        // Besides the NSEC covering the name itself, the wildcard at the closest encloser has
+        // to be denied (RFC 4035 section 3.1.3.2). The closest encloser is the longest ancestor
+        // of `name` that exists in the zone, i.e. owns records or has a descendant that does;
+        // `next_closer` is its child on the way down to `name`.
         let origin = self.origin();
-        let wildcard = if origin.zone_of(&wildcard) {
-            wildcard
-        } else {
-            origin.clone()
-        };
+        let mut next_closer = name.clone();
+        let mut encloser = name.base_name();
+        while origin.zone_of(&encloser)
+            && encloser != *origin
+            && !inner
+                .records
+                .keys()
+                .any(|key| encloser.zone_of(key.name()))
+        {
+            next_closer = encloser.clone();
+            encloser = encloser.base_name();
+        }
+        let wildcard = next_closer.into_wildcard();
 
-        // don't duplicate the record...
-        let wildcard_proof = if wildcard != *name {
+        // don't duplicate the record, and don't "deny" a wildcard that exists: this is then the
+        // proof for an answer expanded from that very wildcard (RFC 4035 section 3.1.3.3), for
+        // which the NSEC covering the name itself is all that is needed.
+        let wildcard_exists = inner.records.keys().any(|key| *key.name() == wildcard);
+        let wildcard_proof = if wildcard != *name && !wildcard_exists {
             inner.closest_nsec(&wildcard)
         } else {
             None
